@@ -156,6 +156,7 @@ func ruleC20(r *Report) {
 	r.Rule("C20.pairing", "every lock acquisition is released on all paths to every exit (explicitly or by a deferred unlock)", 4)
 	r.Rule("C20.reentry", "no call made while a lock is held can re-acquire the same lock (any mode) when some module function takes it in write mode (RWMutex read locks are not re-entrant behind a waiting writer)", 1)
 	r.Rule("C20.order", "the acquired-while-holding graph over abstract locks is acyclic", 1)
+	r.Rule("C20.atomic", "within one function, all accesses to a guarded map lie in one critical section: the guard is not released between two accesses (no check-then-act across an unlock)", 3)
 	r.Rule("C20.shared-state", "request-time functions of the bundled server do not store to package-level variables or to fields of shared objects outside a critical section; no goroutines/channels in samlidp", 1)
 	r.Trusted("go/ssa, go/callgraph (CHA/VTA) of golang.org/x/tools v0.29.0", "sync.RWMutex / sync.Mutex semantics as documented")
 	r.Assume("abstract lock identity = (struct type, field): one instance of each per server")
@@ -194,6 +195,7 @@ func ruleC20(r *Report) {
 		}
 	}
 
+	checkAtomicSections(r, p, idpFns, guard)
 	order := map[string]map[string]string{} // held -> acquired -> where
 	for _, fn := range idpFns {
 		f := la.Facts(fn)
@@ -522,4 +524,105 @@ func implementsProviderIface(fn *ssa.Function) bool {
 		return true
 	}
 	return false
+}
+
+
+// checkAtomicSections: C20.atomic. For each function, no explicit release of a guard mutex lies on a path between
+// two accesses to a map it guards.
+func checkAtomicSections(r *Report, p *Prog, fns []*ssa.Function, guard map[string]guardEntry) {
+	rule := "C20.atomic"
+	for _, fn := range fns {
+		type acc struct {
+			in  ssa.Instruction
+			key string
+		}
+		var accs []acc
+		var unlocks []ssa.Instruction
+		unlockOf := map[ssa.Instruction]string{}
+		for _, b := range fn.Blocks {
+			for _, in := range b.Instrs {
+				if fa, ok := in.(*ssa.FieldAddr); ok {
+					if n := namedOf(fa.X.Type()); n != nil {
+						key := n.Obj().Name() + "." + fieldName(fa.X.Type(), fa.Field)
+						if _, ok := guard[key]; ok && !isFreshLocal(fa.X) {
+							reads, writes := fieldAccesses(fa)
+							for _, a := range append(reads, writes...) {
+								accs = append(accs, acc{a, key})
+							}
+						}
+					}
+				}
+				if c, ok := in.(*ssa.Call); ok { // explicit (non-deferred) releases only
+					if op, ok := lockOpOf(&c.Call); ok && !op.Acquire {
+						unlocks = append(unlocks, in)
+						unlockOf[in] = op.Lock
+					}
+				}
+			}
+		}
+		if len(accs) == 0 {
+			continue
+		}
+		// forward reachability between instructions, back edges ignored
+		reach := func(x, y ssa.Instruction) bool {
+			if x.Block() == y.Block() {
+				return instrBefore(x.Block(), x, y)
+			}
+			seen := map[*ssa.BasicBlock]bool{}
+			var dfs func(b *ssa.BasicBlock) bool
+			dfs = func(b *ssa.BasicBlock) bool {
+				if b == y.Block() {
+					return true
+				}
+				if seen[b] {
+					return false
+				}
+				seen[b] = true
+				for _, s := range b.Succs {
+					if isBackEdge(b, s) {
+						continue
+					}
+					if dfs(s) {
+						return true
+					}
+				}
+				return false
+			}
+			for _, s := range x.Block().Succs {
+				if !isBackEdge(x.Block(), s) && dfs(s) {
+					return true
+				}
+			}
+			return false
+		}
+		keys := map[string]bool{}
+		for _, a := range accs {
+			keys[a.key] = true
+		}
+		for key := range keys {
+			g := guard[key]
+			split := ""
+			for _, u := range unlocks {
+				if unlockOf[u] != g.Mutex {
+					continue
+				}
+				before, after := false, false
+				for _, a := range accs {
+					if a.key != key {
+						continue
+					}
+					if reach(a.in, u) {
+						before = true
+					}
+					if reach(u, a.in) {
+						after = true
+					}
+				}
+				if before && after {
+					split = p.InstrPos(u)
+				}
+			}
+			r.Check(split == "", rule, fmt.Sprintf("%s: accesses to %s form one critical section", p.FnName(fn), key), p.Pos(fn.Pos()), "no release of "+g.Mutex+" between two accesses", fmt.Sprintf("%s is released at %s between two accesses to %s: the operation is a check-then-act over two critical sections and another request can interleave", g.Mutex, split, key))
+		}
+	}
 }
